@@ -13,7 +13,14 @@ import (
 	"strings"
 )
 
-const repoRoot = "/repo"
+// repoRoot is the repository the texts are taken from (VERIF_REPO: a scratch copy under test).
+var repoRoot = func() string {
+	if v := os.Getenv("VERIF_REPO"); v != "" {
+		return v
+	}
+	return "/repo"
+}()
+
 const corpusDir = "/verif/corpus/C01"
 
 // Seed is one YANG text found in the repository.
